@@ -14,14 +14,26 @@ import json, os, re, shutil, subprocess, sys, time, glob, hashlib
 
 ROOT = os.path.dirname(os.path.dirname(os.path.abspath(__file__)))
 WORK = os.path.join(ROOT, ".work")
-REPO = "/repo"
+REPO = os.environ.get("VERIF_REPO") or "/repo"   # development only: a scratch copy of the repository (seeded changes)
+
+
+def modfile_args():
+    """With VERIF_REPO set, build against that copy through an alternate go.mod (replace rewritten)."""
+    if REPO == "/repo":
+        return []
+    d = os.path.join(WORK, "alt", hashlib.sha1(REPO.encode()).hexdigest()[:12])
+    os.makedirs(d, exist_ok=True)
+    mod = open(os.path.join(ROOT, "go.mod")).read().replace("=> /repo", "=> " + REPO)
+    open(os.path.join(d, "go.mod"), "w").write(mod)
+    shutil.copy(os.path.join(ROOT, "go.sum"), os.path.join(d, "go.sum"))
+    return ["-modfile=" + os.path.join(d, "go.mod")]
 
 # per-property configuration: shards (quick, thorough), race build, global budgets in seconds
 CONF = {
     "C01": {"fuzz": [("FuzzRoundTrip", 90), ("FuzzText", 90)]},
     "C02": {"fuzz": [("FuzzNewick", 60), ("FuzzNexus", 60), ("FuzzPhyloXML", 45), ("FuzzNextstrain", 45)]}, "C03": {}, "C04": {}, "C05": {}, "C06": {}, "C07": {}, "C08": {}, "C09": {}, "C10": {},
     "C11": {"race": True, "shards": (4, 8)},
-    "C12": {}, "C13": {}, "C14": {}, "C15": {}, "C16": {}, "C17": {},
+    "C12": {}, "C13": {"fuzz": [("FuzzSingleMulti", 120)]}, "C14": {"needs_cli": True}, "C15": {}, "C16": {"needs_cli": True}, "C17": {"needs_cli": True},
     "C18": {"needs_cli": True}, "C19": {"needs_cli": True}, "C20": {"needs_cli": True},
     "C06cli": {},
 }
@@ -36,6 +48,12 @@ def goenv():
     return env
 
 
+def bindir():
+    if REPO == "/repo":
+        return os.path.join(WORK, "bin")
+    return os.path.join(WORK, "alt", hashlib.sha1(REPO.encode()).hexdigest()[:12], "bin")
+
+
 def pkgdir(pid):
     return os.path.join(ROOT, "checks", pid.lower())
 
@@ -44,8 +62,9 @@ def build(pid, log):
     """go test -c of the check package (and the gotree CLI when the check drives it)."""
     os.makedirs(os.path.join(WORK, "bin"), exist_ok=True)
     conf = CONF.get(pid, {})
-    out = os.path.join(WORK, "bin", pid.lower() + ".test")
-    cmd = ["go", "test", "-c", "-tags", "verif", "-vet=off", "-o", out]
+    out = os.path.join(bindir(), pid.lower() + ".test")
+    os.makedirs(bindir(), exist_ok=True)
+    cmd = ["go", "test", "-c", "-tags", "verif", "-vet=off", "-o", out] + modfile_args()
     if conf.get("race"):
         cmd.append("-race")
     cmd.append("./checks/" + pid.lower())
@@ -55,7 +74,7 @@ def build(pid, log):
     if r.returncode != 0:
         return None, r.stdout
     if conf.get("needs_cli"):
-        cli = os.path.join(WORK, "bin", "gotree")
+        cli = os.path.join(bindir(), "gotree")
         cmd = ["go", "build", "-tags", "verif", "-o", cli, "."]
         env = goenv()
         env["GOFLAGS"] = "-mod=mod"
@@ -84,7 +103,7 @@ def read_journal(d):
 
 def run_replay(binary, pid, path, timeout=120, extra_env=None):
     env = goenv()
-    env.update({"VERIF_REPLAY": path, "VERIF_OUT": "", "VERIF_CLI": os.path.join(WORK, "bin", "gotree")})
+    env.update({"VERIF_REPLAY": path, "VERIF_OUT": "", "VERIF_CLI": os.path.join(bindir(), "gotree")})
     if extra_env:
         env.update(extra_env)
     try:
@@ -114,7 +133,7 @@ def cmd_run(pid, tier):
     t0 = time.time()
     seed = int(os.environ.get("VERIF_SEED", "1") or "1")
     conf = CONF.get(pid, {})
-    rundir = os.path.join(WORK, "run", pid, tier)
+    rundir = os.path.join(WORK if REPO == "/repo" else os.path.dirname(bindir()), "run", pid, tier)
     shutil.rmtree(rundir, ignore_errors=True)
     os.makedirs(rundir, exist_ok=True)
     log = open(os.path.join(rundir, "driver.log"), "w")
@@ -135,7 +154,7 @@ def cmd_run(pid, tier):
         os.makedirs(d, exist_ok=True)
         env = goenv()
         env.update({"VERIF_OUT": d, "VERIF_TIER": tier, "VERIF_SEED": str(seed), "VERIF_SHARD": str(s),
-                    "VERIF_NSHARDS": str(shards), "VERIF_CLI": os.path.join(WORK, "bin", "gotree"),
+                    "VERIF_NSHARDS": str(shards), "VERIF_CLI": os.path.join(bindir(), "gotree"),
                     "VERIF_REPLAY": "", "VERIF_SCRATCH": os.path.join(d, "scratch")})
         if conf.get("race"):
             env["GORACE"] = "halt_on_error=0 exitcode=66 log_path=" + os.path.join(d, "race")
@@ -241,8 +260,8 @@ def run_fuzz(pid, binary, targets, rundir, seed, tier, stats, violations, inconc
     to a plain replay file and confirmed by replaying it in a fresh process."""
     scale = float(os.environ.get("VERIF_FUZZ_SCALE", "1"))
     # coverage instrumentation for the fuzzer needs a binary built with -fuzz
-    fuzzbin = os.path.join(WORK, "bin", pid.lower() + ".fuzz.test")
-    cmd = ["go", "test", "-c", "-fuzz=Fuzz", "-tags", "verif", "-vet=off", "-o", fuzzbin, "./checks/" + pid.lower()]
+    fuzzbin = os.path.join(bindir(), pid.lower() + ".fuzz.test")
+    cmd = ["go", "test", "-c", "-fuzz=Fuzz", "-tags", "verif", "-vet=off", "-o", fuzzbin] + modfile_args() + ["./checks/" + pid.lower()]
     r = subprocess.run(cmd, cwd=ROOT, env=goenv(), stdout=subprocess.PIPE, stderr=subprocess.STDOUT, text=True)
     log.write("$ %s\n%s\n" % (" ".join(cmd), r.stdout))
     if r.returncode != 0:
@@ -256,7 +275,7 @@ def run_fuzz(pid, binary, targets, rundir, seed, tier, stats, violations, inconc
         os.makedirs(cache, exist_ok=True)
         env = goenv()
         env.update({"VERIF_OUT": "", "VERIF_TIER": tier, "VERIF_SEED": str(seed), "VERIF_REPLAY": "",
-                    "VERIF_CLI": os.path.join(WORK, "bin", "gotree")})
+                    "VERIF_CLI": os.path.join(bindir(), "gotree")})
         cmd = [fuzzbin, "-test.run", "^$", "-test.fuzz", "^" + target + "$", "-test.fuzztime", "%ds" % secs,
                "-test.fuzzminimizetime", "0s", "-test.fuzzcachedir", cache, "-test.parallel", "16", "-test.timeout", "0"]
         t1 = time.time()
